@@ -142,21 +142,14 @@ const HDR: [u8; 8] = [1, 1, 0, 0x0b, 0, 0, 0, 1];
 
 fn bytes3(sink: &mut Sink, quick: bool, evals: &mut u64) {
     // every string of up to 3 octets after a valid header, aggregated per class sequence
-    let mut agg: BTreeMap<Vec<&'static str>, BTreeMap<String, u64>> = BTreeMap::new();
-    let mut run = |tail: &[u8], agg: &mut BTreeMap<Vec<&'static str>, BTreeMap<String, u64>>, evals: &mut u64| {
+    let mut agg: BTreeMap<Vec<&'static str>, BTreeMap<(String, String, String), u64>> = BTreeMap::new();
+    let mut run = |tail: &[u8], agg: &mut BTreeMap<Vec<&'static str>, BTreeMap<(String, String, String), u64>>, evals: &mut u64| {
         let mut b = HDR.to_vec();
         b.extend_from_slice(tail);
         let (s, a, post) = run_both(&b, false);
         *evals += 1;
-        let mut key = outcome_key(&s);
-        if outcome_key(&a) != key {
-            key = format!("MISMATCH sync={} async={}", key, outcome_key(&a));
-        }
-        if post != "ok" {
-            key = format!("POST {}", post);
-        }
         let cls: Vec<&'static str> = tail.iter().map(|x| class_of(*x)).collect();
-        *agg.entry(cls).or_default().entry(key).or_default() += 1;
+        *agg.entry(cls).or_default().entry((outcome_key(&s), outcome_key(&a), post)).or_default() += 1;
     };
     run(&[], &mut agg, evals);
     for a in 0..=255u8 {
@@ -173,6 +166,7 @@ fn bytes3(sink: &mut Sink, quick: bool, evals: &mut u64) {
     }
     for (cls, outs) in agg {
         let count: u64 = outs.values().sum();
+        let outs: Vec<J> = outs.iter().map(|((s, a, p), n)| json!({"sync": s, "async": a, "post": p, "n": n})).collect();
         let ev = json!({"ev": "bytes3", "classes": cls, "count": count, "outs": outs});
         sink.emit(&ev, &json!({"classes": cls, "note": "all octet strings of this class sequence after header 0101000b00000001"}));
     }
